@@ -263,7 +263,8 @@ impl PackageTemplate { pub fn build_package(txid: Txid, vout: u32, data: Package
     ensures r == (PackageTemplate { txid, vout, data, counterparty_spendable_height }) { PackageTemplate { txid, vout, data, counterparty_spendable_height } } }
 pub struct CounterpartyParams { pub on_counterparty_tx_csv: u16 }
 pub struct Funding { pub channel_parameters: ChannelTransactionParameters }
-pub struct ChannelMonitorImpl { pub counterparty_commitment_params: CounterpartyParams, pub funding: Funding }
+pub struct BestBlock { pub height: u32 }
+pub struct ChannelMonitorImpl { pub counterparty_commitment_params: CounterpartyParams, pub funding: Funding, pub best_block: BestBlock }
 impl ChannelMonitorImpl {
 //@extract lightning/src/chain/channelmonitor.rs :: impl ChannelMonitorImpl :: fn check_spend_counterparty_htlc
 //@slice R15
@@ -279,6 +280,10 @@ impl ChannelMonitorImpl {
         final(claimable_outpoints)@ =~= seq![PackageTemplate { txid: htlc_txid, vout: idx as u32, counterparty_spendable_height: (height + self.counterparty_commitment_params.on_counterparty_tx_csv as u32) as u32,
             data: PackageSolvingData::RevokedOutput(RevokedOutput { point: per_commitment_point, key: per_commitment_key, amount: tx.output@[idx as int].value, params: self.funding.channel_parameters, height }) }],
     !(input.previous_output.txid.0 == commitment_txid.0 && input.witness.n == 5 && idx < tx.output@.len()) ==> final(claimable_outpoints)@.len() == 0,
+//@mutant second_stage_justice_claim_recorded_as_created_at_the_tip
+    self.funding.channel_parameters.clone(), height,
+//@with
+    self.funding.channel_parameters.clone(), self.best_block.height,
 //@mutant justice_claims_the_first_output_for_every_input
     per_commitment_point, per_commitment_key, tx.output[idx].value,
 //@with
